@@ -187,7 +187,7 @@ def generate(ctx):
                 case['route'] = route
                 case['key'] = _pos_key(n, rng) if route == 'iloc' else _label_key(spec.labels, spec.kind, rng)
                 if iface == 'assign':
-                    case['vshape'] = rng.choice(['scalar', 'array', 'series'] + ([] if spec.kind.startswith('hier') else ['apply_const']))
+                    case['vshape'] = rng.choice(['scalar', 'array', 'series'] + ([] if spec.kind.startswith('hier') else ['apply_const', 'apply_reversed']))
                     case['vseed'] = rng.randrange(1 << 30)
                     case['fill'] = rng.choice([np.nan, None, 0, 'fv'])
             elif iface == 'astype':
@@ -220,7 +220,41 @@ def check(case, ctx):
     ctx.tally('iface', f"{case['kind']}.{case['iface']}")
     if case['kind'] == 'frame':
         return _check_frame(case, ctx)
-    return _check_series(case, ctx)
+    ctx.__dict__['_c08_last'] = None
+    _check_series(case, ctx)
+    last = ctx.__dict__.get('_c08_last')
+    if last is not None:
+        _result_lookups(ctx, last[1], last[3])
+
+
+def _result_lookups(ctx, out, klass):
+    """the container an update returns must find its own labels where they are: a result whose label -> position answers still
+    describe the receiver (or nothing) gives wrong rows to every later selection by label."""
+    from static_frame.core.index_base import IndexBase
+    if out is None:
+        return
+    for axis_name in ('index', 'columns'):
+        ax = getattr(out, axis_name, None)
+        if not isinstance(ax, IndexBase):
+            continue
+        labs = canon.index_labels(ax)
+        for pos in sorted({0, len(labs) - 1, len(labs) // 2}) if labs else ():
+            lab = labs[pos]
+            try:
+                if lab != lab or (isinstance(lab, tuple) and any(x != x for x in lab)):
+                    continue
+            except Exception:
+                continue
+            try:
+                p = ax.loc_to_iloc(lab)
+            except Exception as e:
+                ctx.violation('result_label_lookup_raised', detail={'axis': axis_name, 'label': repr(lab), 'position': pos, 'exception': type(e).__name__},
+                              klass=dict(klass, axis_checked=axis_name))
+                return
+            if not isinstance(p, (int, np.integer)) or int(p) != pos:
+                ctx.violation('result_label_found_elsewhere', detail={'axis': axis_name, 'label': repr(lab), 'position': pos, 'loc_to_iloc': repr(p)},
+                              klass=dict(klass, axis_checked=axis_name))
+                return
 
 
 def _key(case, f_or_s, rk, ck):
@@ -286,6 +320,7 @@ def _check_frame(case, ctx):
     _check_frame_inner(case, ctx)
     last = ctx.__dict__.get('_c08_last')
     if last is not None:
+        _result_lookups(ctx, last[1], last[3])
         _go_independence(ctx, *last)
 
 
@@ -509,6 +544,11 @@ def _make_value(case, spec, R, C, rres, cres):
 
 def _const5(sel):
     return 5
+
+
+def _reversed_sel(sel):
+    import static_frame as sf
+    return sel.iloc[::-1] if isinstance(sel, sf.Series) else sel
 
 
 def _identity(sel):
@@ -874,6 +914,11 @@ def _check_series(case, ctx):
         elif vs == 'apply_const':
             exp = {p: cs(5) for p in P}
             out, exc = _call(lambda: iface_obj[key].apply(_const5))
+        elif vs == 'apply_reversed':
+            # the function hands the selected cells back under their own labels but in another order: a labelled value is
+            # aligned by label, so every cell keeps its value
+            exp = {}
+            out, exc = _call(lambda: iface_obj[key].apply(_reversed_sel))
         elif vs == 'array':
             if res.reduce:
                 return
